@@ -13,6 +13,9 @@ the two returned lengths, `r.written` what `w` received.
 import WuffsVerif.Proof.Flate.Bounds3
 import WuffsVerif.Proof.Flate.StoredCut3
 import WuffsVerif.Proof.Flate.StoredEnc
+import WuffsVerif.Proof.Flate.Lookup4
+import WuffsVerif.Proof.Flate.TakeSpec
+import WuffsVerif.Proof.Flate.Canonical3
 
 namespace WuffsVerif.Props.C16
 open WuffsVerif.Flate WuffsVerif.Flate.Cut WuffsVerif.Flate.Spec
@@ -141,5 +144,132 @@ set_option maxRecDepth 100000 in
 example : (match Cut.Cut true (encodeStored [] #[0x41, 0x42] ++ #[]) 6 with
     | .ok r => r.encodedLen == 6 && r.decodedLen == 1 && r.written == #[0x41] | .error _ => false) = true := by
   decide +kernel
+
+/-! ## 4. The bit reader and the Huffman fast path
+
+`b.Inv` (Proof/Flate/Basic.lean) is the content invariant of a `bitstream` cursor: the low `nBits`
+bits of `bits` are the stream bits at `b.pos = 8*index - nBits`, and whatever sits above them is a
+subset of the stream bits that follow (this is what `decode`'s 64-bit refill leaves behind, and
+what makes OR-ing a re-loaded byte on top harmless). -/
+
+/-- `bitstream.take(n)` returns the `n`-bit little-endian data element of RFC 1951 §3.1.1 at the
+cursor's bit position (the spec decoder's `bitsLE`) and advances by `n` bits — or returns
+`mostNegativeInt32` exactly when fewer than `n` bits are left. -/
+theorem take_reads_spec_bits (b : Bitstream) (hb : b.Inv) (n : Nat) (hn : n ≤ 31) :
+    (b.take n).2.bytes = b.bytes ∧
+    (if b.pos + n ≤ 8 * b.bytes.size then
+      (b.take n).1 = Int.ofNat (Spec.bitsLE b.bytes b.pos n) ∧ (b.take n).2.Inv ∧ (b.take n).2.pos = b.pos + n
+    else (b.take n).1 = WuffsVerif.Gen.C16.mostNegativeInt32) :=
+  Cut.take_spec b hb n hn
+
+/-- non-vacuity: the start-of-stream cursor satisfies the invariant. -/
+example (s : Bytes) : ({ bytes := s, index := 0, bits := 0, nBits := 0 } : Bitstream).Inv :=
+  ⟨⟨by simp, by simp⟩, by simp, fun i hi => by simp at hi, fun i _ _ hbit => by simp at hbit⟩
+
+/-- **lookup_eq_slow**: with the table built by `constructLookUpTable`, `decode` (64-bit "variant 4"
+refill or single-byte refill, 8-bit table, fall-back) returns what `slowDecode` returns from the same
+cursor — same symbol, same bits consumed, buffer untouched, invariant kept (`SameOutcome`).
+`hsz`/`hsym`: the table has 256 entries and symbols fit the 16-bit field of an entry. -/
+theorem lookup_eq_slow (h h' : Huffman) (b : Bitstream) (hc : h.constructLookUpTable = .ok h')
+    (hsz : h.lookUpTable.size = 256) (hsym : ∀ (idx : Nat) (s : Int), h.symbols[idx]? = some s → s < 65536)
+    (hb : b.Inv) :
+    SameOutcome b.bytes (h'.decode b) (h'.slowDecode b) :=
+  Cut.lookup_eq_slow h h' b hc hsz hsym hb
+
+/-- … and every `huffman` that `construct` returns (from a `huffman` that satisfies `TableOK`, as
+`Huffman.zero` and all later values in the cutter do) meets those side conditions. -/
+theorem lookup_eq_slow_of_construct (h0 h : Huffman) (lengths : Array Nat) (ecb ecn : Nat)
+    (hc : h0.construct lengths = .ok (h, ecb, ecn)) (h0ok : h0.TableOK) (hlen : lengths.size ≤ 65536) :
+    h.TableOK ∧ ∀ b : Bitstream, b.Inv → SameOutcome b.bytes (h.decode b) (h.slowDecode b) :=
+  Cut.construct_lookup_eq_slow h0 h lengths ecb ecn hc h0ok hlen
+
+/-- non-vacuity of `TableOK` -/
+example : Huffman.zero.TableOK := Huffman.zero_tableOK
+
+/-- `slowDecode` is a function of the upcoming stream bits only (`absLoop` is the same loop over an
+abstract bit sequence): the refinement used for `lookup_eq_slow`. -/
+theorem slowDecode_reads_stream_bits (h : Huffman) (b : Bitstream) (hb : b.Inv) :
+    Refines b b.pos
+      (absLoop h (fun j => streamBit b.bytes (b.pos + j)) (8 * b.bytes.size - b.pos)
+        WuffsVerif.Gen.C16.maxCodeBits 1 0 0 0 0)
+      (h.slowDecode b) :=
+  Cut.slowDecodeLoop_refines h _ 1 0 0 0 0 b.pos b hb rfl
+
+/-! ## 5. `huffman.construct` against RFC 1951 §3.2.2
+
+`rfcBlCount`, `rfcNextCode`, `rfcCode` (Proof/Flate/Canonical.lean) are steps 1–3 of the RFC's
+code-assignment algorithm, written down literally. -/
+
+/-- **The end-of-block code is canonical**: when `construct` accepts lengths that give symbol 256 a
+code, the `(endCodeBits, endCodeNBits)` it returns — which `writeEndCode` writes into the cut stream
+— is the RFC 1951 code of symbol 256 (value, length, and the value fits the length); otherwise
+`endCodeNBits = 0`, on which `doHuffman` reports errInvalidNoEndOfBlock. -/
+theorem endCode_canonical (h0 h : Huffman) (lengths : Array Nat) (ecb ecn : Nat)
+    (hc : h0.construct lengths = .ok (h, ecb, ecn)) :
+    if lengths.size > 256 ∧ lengths.getD 256 0 ≠ 0 then
+      ecn = lengths.getD 256 0 ∧ ecb = rfcCode lengths 256 ∧ ecb < 2 ^ ecn
+    else ecn = 0 :=
+  Cut.endCode_canonical h0 h lengths ecb ecn hc
+
+/-- **What `construct` accepts** (`construct_canonical`, acceptance part): every length ≤ 15, no
+length over-subscribed, and either the Kraft sum is exactly 1 (`kraftSum … 15 = 2^15`) or the code is
+the degenerate tree with a single code of length 1 — the same rule as Go's `compress/flate`, minus
+the empty tree. -/
+theorem construct_accepts (h0 h : Huffman) (lengths : Array Nat) (ecb ecn : Nat)
+    (hc : h0.construct lengths = .ok (h, ecb, ecn)) :
+    (∀ x ∈ lengths.toList, x ≤ 15) ∧ NoOver lengths 15 ∧
+    (kraftSum lengths 15 = 2 ^ 15 ∨
+      ((lengths.toList.filter (· = 0)).length + 1 = lengths.size ∧ rfcBlCount lengths 1 = 1)) :=
+  Cut.construct_accepts h0 h lengths ecb ecn hc
+
+/-- **construct_canonical** (decoding part): when `construct` accepts `lengths`, `slowDecode` maps the
+RFC 1951 §3.2.2 code of every symbol with a non-zero length (sent most significant bit first, §3.1.1)
+back to that symbol and consumes exactly its length.  Proof: `h.counts` are the RFC's `bl_count`,
+`constructOffsets`/`constructSymbols` are a counting sort that lists the symbols by (length, symbol),
+and the loop of `slowDecode` keeps `first = next_code[i]`. -/
+theorem construct_canonical (h0 h : Huffman) (lengths : Array Nat) (ecb ecn : Nat)
+    (hc : h0.construct lengths = .ok (h, ecb, ecn))
+    (sym L : Nat) (hs : sym < lengths.size) (hLd : lengths.getD sym 0 = L) (hL0 : L ≠ 0)
+    (b : Bitstream) (hb : b.Inv) (hfit : b.pos + L ≤ 8 * b.bytes.size)
+    (hbits : ∀ k, k < L → streamBit b.bytes (b.pos + k) = (rfcCode lengths sym).testBit (L - 1 - k)) :
+    ∃ b', h.slowDecode b = .ok (Int.ofNat sym, b') ∧ b'.pos = b.pos + L ∧ b'.Inv ∧ b'.bytes = b.bytes :=
+  Cut.construct_canonical h0 h lengths ecb ecn hc sym L hs hLd hL0 b hb hfit hbits
+
+/-- … and so does the fast path `decode` (by `lookup_eq_slow`). -/
+theorem decode_canonical (h0 h : Huffman) (lengths : Array Nat) (ecb ecn : Nat)
+    (hc : h0.construct lengths = .ok (h, ecb, ecn)) (h0ok : h0.TableOK) (hlen : lengths.size ≤ 65536)
+    (sym L : Nat) (hs : sym < lengths.size) (hLd : lengths.getD sym 0 = L) (hL0 : L ≠ 0)
+    (b : Bitstream) (hb : b.Inv) (hfit : b.pos + L ≤ 8 * b.bytes.size)
+    (hbits : ∀ k, k < L → streamBit b.bytes (b.pos + k) = (rfcCode lengths sym).testBit (L - 1 - k)) :
+    ∃ b', h.decode b = .ok (Int.ofNat sym, b') ∧ b'.pos = b.pos + L ∧ b'.Inv ∧ b'.bytes = b.bytes := by
+  obtain ⟨b2, e2, p2, i2, y2⟩ := Cut.construct_canonical h0 h lengths ecb ecn hc sym L hs hLd hL0 b hb hfit hbits
+  have hsame := (Cut.construct_lookup_eq_slow h0 h lengths ecb ecn hc h0ok hlen).2 b hb
+  rw [e2] at hsame
+  cases hd : h.decode b with
+  | error e => rw [hd] at hsame; exact hsame.elim
+  | ok p =>
+    obtain ⟨s1, b1⟩ := p
+    rw [hd] at hsame
+    obtain ⟨hs1, hrest⟩ := hsame
+    subst hs1
+    obtain ⟨q1, q2, _, q4, _⟩ := hrest (Int.natCast_nonneg _)
+    exact ⟨b1, rfl, by rw [q1, p2], q4, q2⟩
+
+set_option maxRecDepth 100000 in
+/-- non-vacuity of the hypothesis `construct … = .ok …`: `construct` accepts the complete two-symbol
+code (lengths 1, 1); with no symbol 256 it reports `endCodeNBits = 0`.  (Kernel evaluation of the
+model, including the 256-entry table; larger alphabets are exercised by the `construct` ops of the
+differential tie.) -/
+example : ∃ h, Huffman.zero.construct #[1, 1] = .ok (h, 0, 0) := by
+  have : (match Huffman.zero.construct #[1, 1] with
+      | .ok (_, a, b) => a == 0 && b == 0 | .error _ => false) = true := by decide +kernel
+  revert this
+  cases hc : Huffman.zero.construct #[1, 1] with
+  | error e => simp
+  | ok p =>
+    obtain ⟨h, a, b⟩ := p
+    simp only [Bool.and_eq_true, beq_iff_eq]
+    intro hab
+    exact ⟨h, by rw [hab.1, hab.2]⟩
 
 end WuffsVerif.Props.C16
